@@ -189,6 +189,10 @@ impl Sched {
     }
 }
 
+/// When false, virtual time advances only when no process can run (so that the
+/// order of events at different virtual times does not depend on the schedule).
+pub static EARLY_TICK: AtomicBool = AtomicBool::new(true);
+
 /// How the next task is chosen among `n` runnable ones.
 #[derive(Clone, Debug)]
 pub enum Policy {
@@ -334,7 +338,8 @@ where
         if steps > max_steps {
             return (None, false, true, state, sched);
         }
-        let can_tick = state.borrow().scheduled_wakers.next_wake_time().is_some();
+        let can_tick = EARLY_TICK.load(Ordering::SeqCst)
+            && state.borrow().scheduled_wakers.next_wake_time().is_some();
         match chooser.choose(&runnable, can_tick) {
             Choice::Task(i) => {
                 sched.poll(i);
